@@ -279,7 +279,7 @@ def model_run(hist, prefix=""):
         s.close()
 
 
-NAMES = ["a.ics", "b c.ics", "d%41.ics", "q?x.ics", "h#y;z+.ics"]
+NAMES = ["a.ics", "b c.ics", "d%41.ics", "q?x.ics", "h#y;z+.ics", "k:l.ics"]
 
 
 def http_alphabet():
